@@ -266,3 +266,47 @@ Proof.
   - unfold binsum. cbn [shift sumn qbinom qpow Nat.sub]. ring.
   - rewrite binsum_step. cbn [shift]. rewrite !IH. reflexivity.
 Qed.
+
+(* ---------- quadratic-time evaluation of [shift] (Pascal-triangle iteration on a list) ---------- *)
+Fixpoint tstep (mu : Qc) (l : list Qc) : list Qc :=
+  match l with
+  | a :: t => match t with b :: _ => (mu * a + b) :: tstep mu t | [] => [] end
+  | [] => []
+  end.
+Fixpoint titer (mu : Qc) (n : nat) (l : list Qc) : list Qc :=
+  match n with O => l | S n' => titer mu n' (tstep mu l) end.
+Definition shift_fast (mu : Qc) (c : nat -> Qc) (k : nat) : Qc := hd 0 (titer mu k (map c (seq 0 (S k)))).
+
+Lemma tstep_map mu (f : nat -> Qc) s n :
+  tstep mu (map f (seq s (S (S n)))) = map (fun j => mu * f j + f (S j)) (seq s (S n)).
+Proof.
+  revert s. induction n as [|n IH]; intros s; [reflexivity|].
+  change (seq s (S (S (S n)))) with (s :: seq (S s) (S (S n))).
+  change (map f (s :: seq (S s) (S (S n)))) with (f s :: map f (seq (S s) (S (S n)))).
+  change (seq s (S (S n))) with (s :: seq (S s) (S n)).
+  cbn [map]. rewrite <- IH. reflexivity.
+Qed.
+
+Lemma titer_spec mu i : forall (G : nat -> nat -> Qc) n,
+  (forall i j, G (S i) j = mu * G i j + G i (S j)) ->
+  titer mu i (map (G O) (seq 0 (i + S n))) = map (G i) (seq 0 (S n)).
+Proof.
+  induction i as [|i IH]; intros G n HG; [reflexivity|].
+  cbn [titer]. replace (S i + S n)%nat with (S (S (i + n))) by lia.
+  rewrite tstep_map.
+  rewrite (map_ext (fun j => mu * G O j + G O (S j)) (G 1%nat)) by (intros j; symmetry; apply HG).
+  replace (S (i + n)) with (i + S n)%nat by lia.
+  apply (IH (fun a j => G (S a) j) n). intros a j. apply HG.
+Qed.
+
+Lemma shift_fast_eq mu c k : shift_fast mu c k = shift mu c k.
+Proof.
+  unfold shift_fast.
+  pose (G := fun (i j : nat) => shift mu (fun t => c (j + t)%nat) i).
+  assert (HG : forall i j, G (S i) j = mu * G i j + G i (S j)).
+  { intros i j. unfold G. cbn [shift]. f_equal. apply shift_ext. intros t. f_equal. lia. }
+  pose proof (titer_spec mu k G 0 HG) as E.
+  replace (k + 1)%nat with (S k) in E by lia.
+  rewrite (map_ext c (G O)) by (intros j; unfold G; cbn [shift]; f_equal; lia).
+  rewrite E. cbn [seq map hd]. unfold G. apply shift_ext. intros t. reflexivity.
+Qed.
